@@ -50,7 +50,9 @@ def _gen_q(rng, field, opts, counter):
     if field in ("xy", "xyc") and kind in ("str", "selfc", "selfg"):
         kind = "lambda"
     q = {"f": field, "kind": kind}
-    if kind == "str":
+    if kind == "str" and opts.get("str_plain"):
+        q["expr"] = field
+    elif kind == "str":
         if field in ("x", "y"):
             q["expr"] = rng.pick([field, field, "%s + 1" % field, "2 * %s" % field, "%s - 0.5" % field])
         elif field == "c":
@@ -134,6 +136,16 @@ def _field_for(rng, p, params, opts):
     return rng.pick(["x", "x", "y"])
 
 
+AWKWARD_LABELS = ["entries", "pairsAsDict", "data", "type", "name", "values", "sub:type", "k 0", "", "0"]
+
+
+def _label_name(rng, i):
+    """label i of a Label / UntypedLabel: mostly k<i>, sometimes a name that collides with a keyword or a format key"""
+    if rng.chance(0.06):
+        return AWKWARD_LABELS[i % len(AWKWARD_LABELS)] if i else rng.pick(AWKWARD_LABELS)
+    return "k%d" % i
+
+
 def gen_spec(rng, opts=None, depth=None, budget=None, counter=None, force=None):
     opts = opts or DEFAULT_OPTS
     if depth is None:
@@ -164,7 +176,7 @@ def gen_spec(rng, opts=None, depth=None, budget=None, counter=None, force=None):
         return s
     params = _gen_params(rng, p, opts)
     s.update(params)
-    if opts.get("p_via", 0.25) and rng.chance(opts.get("p_via", 0.25)):
+    if opts.get("p_via", 0.3) and rng.chance(opts.get("p_via", 0.3)):
         # build through the `ing` synonym or, where the shape allows it, a convenience constructor
         s["via"] = rng.pick(["ing", "conv"])
     if p in HAS_Q:
@@ -202,7 +214,7 @@ def gen_spec(rng, opts=None, depth=None, budget=None, counter=None, force=None):
                 k["q"] = _gen_q(rng, first["q"]["f"] if first["range"] != "N" else rng.pick(["x", "y"]), opts, counter)
             kids.append(k)
         if p == "Label":
-            s["pairs"] = {"k%d" % i: k for i, k in enumerate(kids)}
+            s["pairs"] = {_label_name(rng, i): k for i, k in enumerate(kids)}
         else:
             s["values"] = kids
     elif p in ("UntypedLabel", "Branch"):
@@ -213,7 +225,7 @@ def gen_spec(rng, opts=None, depth=None, budget=None, counter=None, force=None):
                 break
             kids.append(child(optional=False))
         if p == "UntypedLabel":
-            s["pairs"] = {"k%d" % i: k for i, k in enumerate(kids)}
+            s["pairs"] = {_label_name(rng, i): k for i, k in enumerate(kids)}
         else:
             s["values"] = kids
     return s
@@ -372,6 +384,25 @@ def build(s, _ctr=None, refs=None, qreg=None):
         # convenience constructors cover only certain shapes; fall back to `ing` otherwise
         plain = all(s.get(k) is None for k in ("underflow", "overflow", "nanflow"))
         v = s.get("value")
+        def _plain_count_bin(x):
+            return x is not None and x["p"] == "Bin" and x.get("value") is None and all(x.get(k) is None for k in ("underflow", "overflow", "nanflow"))
+
+        def _plain_count_sparse(x):
+            return x is not None and x["p"] == "SparselyBin" and x.get("value") is None and x.get("nanflow") is None
+
+        if p == "Bin" and plain and _plain_count_bin(v) and len(kw) == 1:
+            return hg.TwoDimensionallyHistogram(s["num"], s["low"], s["high"], q, v["num"], v["low"], v["high"], kw["value"].quantity)
+        if p == "SparselyBin" and plain and _plain_count_sparse(v) and len(kw) == 1:
+            return hg.TwoDimensionallySparselyHistogram(s["binWidth"], q, v["binWidth"], kw["value"].quantity, s["origin"], v["origin"])
+        if p == "Select" and _plain_count_bin(s.get("cut")):
+            c = s["cut"]
+            from histogrammar.convenience import HistogramCut
+
+            return HistogramCut(c["num"], c["low"], c["high"], kw["cut"].quantity, q)
+        if p == "Categorize" and v is None:
+            from histogrammar.convenience import CategorizeHistogram
+
+            return CategorizeHistogram(q)
         if p == "Bin" and plain and v is None:
             return hg.Histogram(s["num"], s["low"], s["high"], q)
         if p == "SparselyBin" and plain and v is None:
